@@ -947,17 +947,20 @@ class Crystal(object):
         modified = False
         # check the possible vector reductions (edited to handle 2 and 3 dimensions)
         asq = np.dot(self.lattice.T, self.lattice)
-        u = np.around(asq[0, 1] / asq[0, 0])
+        # (round only when that strictly shortens the vector: a projection of 1/2 plus round-off would otherwise
+        # be rounded to 1, flip sign, and be rounded again on the next call, forever)
+        shorten = lambda x: np.around(x) if abs(x) > 0.5 + 1e-8 else 0
+        u = shorten(asq[0, 1] / asq[0, 0])
         if u != 0:
             super[0, 1] = -int(u)
             modified = True
         elif self.dim > 2:
-            u = np.around(asq[0, 2] / asq[0, 0])
+            u = shorten(asq[0, 2] / asq[0, 0])
             if u != 0:
                 super[0, 2] = -int(u)
                 modified = True
             else:
-                u = np.around(asq[1, 2] / asq[1, 1])
+                u = shorten(asq[1, 2] / asq[1, 1])
                 if u != 0:
                     super[1, 2] = -int(u)
                     modified = True
